@@ -16,19 +16,21 @@
          exact new doers/deeds)                        [C06_extend_window]
         (every added startable doer has its Enter in the window) [C06_extend_enters]
      e3                                                [C06_extend_present_identity]
-     "the new deeds are behind the marker of a pass under way, so the scheduler
-      whose pass is running does not send them in this pass" — the structural
-      half                                             [C06_extend_behind_marker]
+     the new deeds are behind the marker of a pass under way
+                                                       [C06_extend_behind_marker]
+     and a pass sends only what was in front of its marker: e2 for the scheduler
+     whose pass is running                             [C06_pass_sends_only_front]
      r1, r2, m for remove                              [C06_remove]
      m for extend: doers' = doers ++ new               [C06_extend_window, last clause]
    e2 in full is FALSE of the code (open finding D42: extending a DoDoer that has
    not yet had its pass in the current root cycle) — [C06_next_cycle_refuted].
    NOT PROVED (checked by the correspondence and the call-log oracle of
-   harness/drivers/c06.py on every run): e2 for the scheduler whose pass is running,
-   and (m) over arbitrary interleavings with nested effects. *)
+   harness/drivers/c06.py on every run): (m) over arbitrary interleavings with nested
+   effects (proved per single effect). *)
 From Hio Require Import Base.Prelude Base.AMap Base.Time Model.Sched Proofs.SchedLife Proofs.SchedTop
   Proofs.SchedDeque Proofs.SchedDequeHold Proofs.SchedDequeAll Proofs.SchedDequeUniq Proofs.SchedDequeOrder
-  Proofs.SchedDequeEffects Proofs.SchedDequeTop Proofs.SchedDequeTop2.
+  Proofs.SchedDequeEffects Proofs.SchedDequeTop Proofs.SchedDequeTop2 Proofs.SchedDequeEpos Proofs.SchedDequeSortB
+  Proofs.SchedDequePass.
 
 (* one extend(): new := the not-present doers, deduplicated; they are entered
    (running their first resumption) with the tyme unchanged, every event of the
@@ -105,6 +107,42 @@ Theorem C06_extend_behind_marker :
     unrotate ((u ++ DMark :: r) ++ acc) = (r ++ acc) ++ u.
 Proof. intros. now apply extend_behind_marker. Qed.
 Print Assumptions C06_extend_behind_marker.
+
+(* e2 for the scheduler whose pass is running: a pass (recur_loop; [loop_sent] is
+   recur_loop instrumented with the list of doers it sends, same states) of a
+   scheduler x that is executing, or of the root, sends only doers that were in
+   front of its marker when it started, in that order — whatever the doers do
+   meanwhile (extend, remove, nested passes): by C06_extend_behind_marker a doer
+   added to x during the pass is behind the marker, so it is not sent in this pass *)
+Theorem C06_pass_sends_only_front :
+  forall (T : Type) (TT : Time T) (tk : T) (f : nat) (s : st T) (x : id) (u rr : list (deed T))
+         (s' : st T) (r : gres) (l : list id),
+    prot s x -> dq s x = u ++ DMark :: rr -> mf u ->
+    loop_sent tk f s x = (s', r, l) ->
+    recur_loop tk f s x = (s', r) /\ subseq l (dids u).
+Proof.
+  intros T TT tk f s x u rr s' r l P Q M E. split.
+  - rewrite <- loop_sent_erase, E. reflexivity.
+  - eapply loop_sent_sub; eassumption.
+Qed.
+Print Assumptions C06_pass_sends_only_front.
+
+(* doer 1 of w_prog, in the root's first pass, extends DoDoer 2 with 6 and removes 5;
+   6 in its enter extends the root with 7: the pass sends 1 and 2 only; 7 waits *)
+Definition w_pass : st Z := set_deeds w_state 0%N (dq w_state 0%N ++ [DMark]).
+Example C06_pass_example :
+  dq w_pass 0%N = [DDeed 1%N 0%Z; DDeed 2%N 0%Z; DDeed 5%N 0%Z] ++ DMark :: [] /\
+  snd (loop_sent 1%Z 50 w_pass 0%N) = [1; 2]%N /\
+  dids (dq (fst (fst (loop_sent 1%Z 50 w_pass 0%N))) 0%N) = [7; 1; 2]%N.
+Proof. vm_compute. repeat split. Qed.
+
+(* remove() closes in reverse ENTER order wherever the deque is in enter order
+   (C02_deques_in_enter_order_partial: always, for programs without extend()) *)
+Theorem C06_remove_in_enter_order :
+  forall (T : Type) (ord : id -> nat) (rd : list id) (ds : list (deed T)),
+    srt ord (canon ds) -> srt ord (dids (filter (is_rem rd) (unrotate ds))).
+Proof. intros. now apply remove_sorted. Qed.
+Print Assumptions C06_remove_in_enter_order.
 
 (* one remove(): rd := the present doers among the arguments, deduplicated; their
    deeds are taken out of the deque and closed: every removed suspended doer gets
